@@ -46,6 +46,12 @@ pub struct Scenario {
     pub freeze: Option<(usize, usize)>,
     #[serde(default)]
     pub panic_next: usize,
+    /// non-fused wrapped iterator: items yielded after its first `None` (kind "iter" only)
+    #[serde(default)]
+    pub revive: usize,
+    /// id of the element whose destructor panics (0 = none)
+    #[serde(default)]
+    pub drop_panic: u32,
     #[serde(default)]
     pub tag: Value,
 }
